@@ -388,6 +388,17 @@ func (c *FnCtx) evalBinary(x *EBinary, env *Env) (TV, error) {
 }
 
 func (c *FnCtx) evalIdent(name string, env *Env) (TV, error) {
+	// In loop invariants and hints a parameter name denotes the *current* value of the parameter's
+	// variable (parameters are mutable in Go); elsewhere (requires/ensures) it denotes the entry value.
+	if env.header != nil && !env.inOld && c.fn != nil {
+		if ptv, isParam := c.params[name]; isParam && env.vars[name].t.S == ptv.t.S {
+			if a := c.resolveLocal(name, env.header); a != nil && !a.Heap {
+				if t, ok := env.st.locals[a]; ok {
+					return TV{t, a.Type().(*types.Pointer).Elem()}, nil
+				}
+			}
+		}
+	}
 	if tv, ok := env.vars[name]; ok {
 		return tv, nil
 	}
